@@ -266,6 +266,7 @@ func main() {
 	nObl, nDis, nQueries := 0, 0, 0
 	var solverMs int64
 	bySolver := map[string]int{}
+	recheck := map[string]int{} // thorough tier: answers of the second solver on proved queries
 	var samples []sample
 	var violations []*Obligation
 	var broken []*Obligation
@@ -284,6 +285,9 @@ func main() {
 			solverMs += q.Ms
 			if q.Result == "unsat" {
 				bySolver[q.Solver]++
+				if q.Recheck != "" {
+					recheck[q.Recheck]++
+				}
 			}
 		}
 		switch o.Status {
@@ -472,6 +476,7 @@ func main() {
 			"samples":                   samples,
 			"solver_seconds":            float64(solverMs) / 1000.0,
 			"by_solver":                 bySolver,
+			"second_solver_recheck":     recheck,
 			"smoke_checks":              smoke,
 			"known_findings":            knownLines,
 			"generation_seconds":        tGen.Seconds(),
